@@ -1,1 +1,29 @@
-fn main(){}
+//! rtmon: small-scope exhaustive monitors on combinators instantiated directly from the runtime
+//! crate (no generated parser in between): C19 (counted repetition, arrays, pairs, optionals,
+//! skip-n-chars, skip-repeat) and C06 (stack nodes on pre-built stacks).
+
+mod c06;
+mod c19;
+mod inst;
+
+use serde_json::json;
+use vutil::{Args, Collector};
+
+fn main() {
+    let args = Args::parse();
+    vutil::quiet_panics();
+    let prop = args.str("prop", "C19");
+    let thorough = args.thorough();
+    let jobs = vutil::jobs(&args);
+    let col = Collector::new();
+    let t0 = std::time::Instant::now();
+    let extra = match prop.as_str() {
+        "C19" => c19::run(&col, thorough, jobs),
+        "C06" => c06::run(&col, thorough, jobs),
+        _ => panic!("unknown --prop"),
+    };
+    let mut doc = col.finish(extra);
+    doc["engine_wall_s"] = json!(t0.elapsed().as_secs_f64());
+    doc["debug_assertions"] = json!(cfg!(debug_assertions));
+    vutil::write_out(&args, &doc);
+}
